@@ -49,7 +49,12 @@ def main(argv):
                     continue
                 dst = os.path.join(VERIF, 'seeded', name)
                 os.makedirs(dst, exist_ok=True)
-                shutil.copy(os.path.join(out, '%s.diff' % v), os.path.join(dst, 'patch.diff'))
+                src = os.path.join(out, '%s.diff' % v)
+                if r.get('applied_with_3way_merge') and os.path.exists(src + '.rebased'):
+                    # /repo's HEAD moved (a later fix: commit nearby): the stored patch is the same change against the current HEAD
+                    shutil.copy(src, os.path.join(dst, 'patch.as-written.diff'))
+                    src = src + '.rebased'
+                shutil.copy(src, os.path.join(dst, 'patch.diff'))
                 shutil.copy(os.path.join(out, 'demo_%s.py' % v), os.path.join(dst, 'demo.py'))
                 if os.path.exists(os.path.join(out, 'notes.md')):
                     shutil.copy(os.path.join(out, 'notes.md'), os.path.join(dst, 'author_notes.md'))
